@@ -1080,6 +1080,55 @@ Proof.
 Qed.
 
 (* ------------------------------------------------------------------ *)
+(* restore                                                             *)
+
+Lemma describe_ok w sp : R w sp -> describe w = Ok tt.
+Proof. intros HR. unfold describe. rewrite (v_term _ _ _ HR). reflexivity. Qed.
+
+Lemma with_el_id w : with_el w (w_el w) = w.
+Proof. destruct w; reflexivity. Qed.
+
+Lemma sp_term_in sp i : SI sp -> sp_term sp i <> 0 -> sp_mi sp <= i /\ i <= sp_last sp.
+Proof.
+  intros HS H. destruct (N.lt_ge_cases i (sp_mi sp)) as [A|A]; [rewrite sp_term_out in H; auto; lia|].
+  destruct (N.lt_ge_cases (sp_last sp) i) as [B|B]; [rewrite sp_term_out in H; auto; lia|]. lia.
+Qed.
+
+Lemma step_restore w sp i t : R w sp -> wf_op sp (ORestore i t) = true ->
+  exists w', step w (ORestore i t) = Ok w' /\ R w' (sp_restore sp i t).
+Proof.
+  intros HR Hwf. cbn [wf_op] in Hwf. apply andb_true_iff in Hwf as [Hwf Hi]. apply andb_true_iff in Hwf as [Hidle Ht].
+  pose proof (r_si _ _ HR) as HS.
+  cbn [step]. unfold w_restore, sp_restore. rewrite (r_c _ _ HR).
+  destruct (i <=? sp_committed sp) eqn:E1.
+  - rewrite (describe_ok _ _ HR). cbn [bind]. eexists; split; [reflexivity|exact HR].
+  - rewrite (v_term _ _ _ HR). cbn [bind]. destruct (sp_term sp i =? t) eqn:E2.
+    + (* the snapshot's entry is in the log: only commit *)
+      destruct (sp_term_in sp i HS) as (A & B); [lia|].
+      apply (step_commit_to w sp i HR). cbn [wf_op]. rewrite Hidle. cbn [andb]. lia.
+    + rewrite (describe_ok _ _ HR). cbn [bind]. unfold el_restore. rewrite (r_c _ _ HR).
+      destruct (i <? sp_committed sp) eqn:E3; [lia|]. cbn [bind]. eexists; split; [reflexivity|].
+      unfold idle in Hidle. destruct (sp_pend sp) eqn:Ep; [discriminate|].
+      destruct (idle_cover _ HS Ep) as (Hpers & _). rewrite Hpers.
+      pose proof (si_mp _ HS). pose proof (si_pc _ HS). pose proof (r_ss _ _ HR) as (SS1 & _).
+      constructor; cbn [with_el w_el w_lr w_st w_queue el_im el_committed el_processed im_restore
+                         im_saved im_marker im_ents im_snap im_aidx im_aterm
+                         sp_mi sp_mt sp_ents sp_committed sp_processed sp_saved sp_snap sp_pend sp_persisted]; try lia; try reflexivity.
+      * constructor; cbn [sp_mi sp_mt sp_ents sp_committed sp_processed sp_saved sp_snap sp_pend sp_persisted];
+          unfold sp_last; cbn [sp_mi sp_ents]; rewrite ?nlen_nil; try lia; try discriminate.
+        apply log_ok_nil.
+      * apply log_ok_nil.
+      * intros j Hj1 Hj2. rewrite (proj2 (nth_error_None (@nil entry) _)) by (cbn; lia).
+        symmetry. apply sp_get_none. unfold sp_last. cbn [sp_mi sp_ents]. rewrite nlen_nil. lia.
+      * unfold sp_last. cbn [sp_mi sp_ents]. rewrite nlen_nil. lia.
+      * intros _ _. unfold sp_term. cbn [sp_mi sp_mt]. rewrite N.eqb_refl. split; [reflexivity|lia].
+      * unfold rd_ok. cbn [sp_snap sp_persisted negb orb]. discriminate.
+      * unfold cover. cbn [sp_persisted sp_saved sp_mi]. intros; lia.
+      * unfold cover. cbn [sp_persisted sp_saved sp_mi]. intros; lia.
+      * pose proof (r_q _ _ HR) as Q. rewrite Ep in Q. exact Q.
+Qed.
+
+(* ------------------------------------------------------------------ *)
 (* induction over operation sequences                                  *)
 
 (* the operations whose preservation of R is proved here; for the others
